@@ -5,6 +5,7 @@ import av1parse as ap, streaminfo
 
 ID = "C19"
 LEVEL = "exploration"
+TAG_KEYS = True   # violation keys get the configuration feature tag appended (engine.feature_tag)
 RULE = ("Hypothesis draws intra_period_length in {-1,0..40} x intra_refresh_type {1,2} x hierarchical levels 0-5 x overlays x N in P+1..4(P+1)+3 (pictures are "
         "submitted with pic_type INVALID: no forced key frames). Oracle (a) from parsed headers: the display positions whose frame is intra coded (KEY or "
         "INTRA_ONLY; display position = index of the packet that shows the frame) equal {k(P+1)} within [0,N) ({0} for P=-1); for refresh type 2 each is a shown "
